@@ -328,6 +328,11 @@ void run_c09(const std::string& mode) {
     } else {
         if (bs) { sim::set_value("input_buffer_size", bs); }
         chunk_desc = bs ? "output buffer " + std::to_string(bs) + " bytes (hook H4)" : "output buffer 1 MiB (shipped)";
+        // EINTR reaches zlib's read() / stdio's fread(): the library may fail or succeed, never return wrong data
+        if (fk == 0 && choose(sim::S_IO, 8) == 7) {
+            soft.eintr_one_in = 6;
+            chunk_desc += ", EINTR";
+        }
         const uint32_t rd = choose(sim::S_IO, 3);
         if (rd == 1) {
             soft.chunk_mode = 2;
@@ -372,7 +377,9 @@ void run_c09(const std::string& mode) {
     if (r.offset_exceeded) {
         sim::report("oracle", "C09.offset/" + kind + "/exceeds-file-size", "published offset " + std::to_string(r.max_offset) + " exceeds the file size " + std::to_string(file.size()));
     }
-    if (fk == 0) {
+    if (fk == 0 && soft.eintr_one_in != 0 && r.threw) {
+        sim::probe("EINTR under zlib/stdio reported as an error (allowed)");
+    } else if (fk == 0) {
         if (r.threw) {
             sim::report("oracle", "C09.complete/" + kind + "/valid-file-rejected-" + std::to_string(nstreams > 1 ? 2 : 1) + "-streams", "valid file (" + std::to_string(nstreams) + " streams) rejected: " + r.exc_type + ": " + r.exc_what);
         } else if (r.data != payload) {
